@@ -352,7 +352,7 @@ def check_graph(ctx, agg, cls_name, n, bond_list, btypes, forms, obj=None, sfx="
             q = f"[(g.atoms.index(a), d) for a, d in g.yield_bfsd({arg(s, form)!r})]" if form != "atom" else f"[(g.atoms.index(a), d) for a, d in g.yield_bfsd(g.atoms[{s}])]"
             ncalls += 1
             try:
-                got = [(idx_of(a), d) for a, d in obj.yield_bfsd(arg(s, form))]
+                got = [(idx_of(a), d) for a, d in list(obj.yield_bfsd(arg(s, form)))]  # consumed first, converted afterwards
             except Exception as e:
                 viol("yield_bfsd", gcls, f"raised-{type(e).__name__}", f"yield_bfsd(start={s}) raised {type(e).__name__}: {e}", q)
                 got = None
@@ -363,7 +363,7 @@ def check_graph(ctx, agg, cls_name, n, bond_list, btypes, forms, obj=None, sfx="
             q = q.replace("[(g.atoms.index(a), d) for a, d in g.yield_bfsd", "[g.atoms.index(a) for a in g.yield_bfs")
             ncalls += 1
             try:
-                got = [idx_of(a) for a in obj.yield_bfs(arg(s, form))]
+                got = [idx_of(a) for a in list(obj.yield_bfs(arg(s, form)))]
             except Exception as e:
                 viol("yield_bfs", gcls, f"raised-{type(e).__name__}", f"yield_bfs(start={s}) raised {type(e).__name__}: {e}", q)
                 got = None
@@ -377,7 +377,7 @@ def check_graph(ctx, agg, cls_name, n, bond_list, btypes, forms, obj=None, sfx="
                 qd = f"[(g.atoms.index(a), d) for a, d in g.yield_bfsd(g.atoms[{s}], g.atoms[{d}])]"
                 ncalls += 1
                 try:
-                    got = [(idx_of(a), dd) for a, dd in obj.yield_bfsd(arg(s, form), arg(d, form))]
+                    got = [(idx_of(a), dd) for a, dd in list(obj.yield_bfsd(arg(s, form), arg(d, form)))]
                 except Exception as e:
                     viol("yield_bfsd(direction)", gcls, f"raised-{type(e).__name__}", f"yield_bfsd(start={s}, direction={d}) raised {type(e).__name__}: {e}", qd)
                     got = None
@@ -387,7 +387,7 @@ def check_graph(ctx, agg, cls_name, n, bond_list, btypes, forms, obj=None, sfx="
                 qd = f"[g.atoms.index(a) for a in g.yield_bfs(g.atoms[{s}], g.atoms[{d}])]"
                 ncalls += 1
                 try:
-                    got = [idx_of(a) for a in obj.yield_bfs(arg(s, form), arg(d, form))]
+                    got = [idx_of(a) for a in list(obj.yield_bfs(arg(s, form), arg(d, form)))]
                 except Exception as e:
                     viol("yield_bfs(direction)", gcls, f"raised-{type(e).__name__}", f"yield_bfs(start={s}, direction={d}) raised {type(e).__name__}: {e}", qd)
                     got = None
@@ -404,7 +404,7 @@ def check_graph(ctx, agg, cls_name, n, bond_list, btypes, forms, obj=None, sfx="
             a_repr = f"g.atoms[{s}]" if form == "atom" else repr(arg(s, form))
             ncalls += 4
             try:
-                got = sorted(idx_of(a) if idx_of(a) is not None else -1 for a in obj.connected_atoms(arg(s, form)))
+                got = sorted(idx_of(a) if idx_of(a) is not None else -1 for a in list(obj.connected_atoms(arg(s, form))))
                 if got != ref_nb:
                     viol("connected_atoms", acls, "differs-from-bond-list", f"connected_atoms({s}) = {got}, bond list says {ref_nb}", f"[g.atoms.index(a) for a in g.connected_atoms({a_repr})]")
                 obs.append(("nb", s, tuple(got)))
@@ -492,11 +492,54 @@ def _check_directional(viol, op, gcls, s, d, order, labels, exp_dir, reach, dist
         viol(op, gcls, "atom-missing", f"{op}({s}->{d}) did not yield {sorted(missing)}; reachable through {d} without passing {s}: {sorted(exp_dir)}", q)
     if len(order) != len(set(order)):
         viol(op, gcls, "atom-yielded-twice", f"{op}({s}->{d}) yielded {order}", q)
+    if not extra and len(order) == len(set(order)):
+        # breadth-first: non-decreasing distance, under either reading of 'distance' in the directional clause
+        ra = [reach[x] for x in order]
+        rb = [dist[x] for x in order]
+        if any(ra[k] > ra[k + 1] for k in range(len(ra) - 1)) and any(rb[k] > rb[k + 1] for k in range(len(rb) - 1)):
+            viol(op, gcls, "order-not-by-distance", f"{op}({s}->{d}) order {order}: distances through {d} avoiding {s} are {[x + 1 for x in ra]}, true distances {rb}; neither is non-decreasing", q)
     if labels is not None and not extra:
         a_ok = all(l == reach[x] + 1 for x, l in zip(order, labels))
         b_ok = all(l == dist[x] for x, l in zip(order, labels))
         if not (a_ok or b_ok):
             viol(op, gcls, "wrong-distance-label", f"{op}({s}->{d}) yielded {list(zip(order, labels))}: neither the distances along paths through {d} avoiding {s} nor the true distances", q)
+
+
+def deep_shapes():
+    """graphs on 6..10 atoms on which a depth-first or otherwise mis-ordered traversal differs from breadth-first:
+    rings of 6 and 7, two- and three-armed trees of depth 3, a ring with tails, two fused rings"""
+    ring = lambda n, o=0: [(o + i, o + (i + 1) % n) for i in range(n)]
+    return [
+        ("ring6", 6, ring(6)),
+        ("ring7", 7, ring(7)),
+        ("two-arms-depth3", 7, [(0, 1), (1, 2), (2, 3), (0, 4), (4, 5), (5, 6)]),
+        ("arms-depth-2-and-3", 6, [(0, 1), (1, 2), (0, 3), (3, 4), (4, 5)]),
+        ("three-arms", 9, [(0, 1), (1, 2), (2, 3), (0, 4), (4, 5), (5, 6), (0, 7), (7, 8)]),
+        ("ring6-with-tails", 9, ring(6) + [(0, 6), (6, 7), (3, 8)]),
+        ("fused-rings", 10, ring(6) + [(0, 6), (6, 7), (7, 8), (8, 9), (9, 1)]),
+        ("path7", 7, [(i, i + 1) for i in range(6)]),
+    ]
+
+
+def run_deep_part(ctx, agg, part):
+    seed = ctx.seed
+    for name, n, ed in deep_shapes():
+        for perm_kind in range(3):
+            # three labellings: as written, reversed, rotated by the seed
+            if perm_kind == 0:
+                perm = list(range(n))
+            elif perm_kind == 1:
+                perm = list(reversed(range(n)))
+            else:
+                r = 1 + seed % (n - 1)
+                perm = [(i + r) % n for i in range(n)]
+            e2 = sorted((min(perm[i], perm[j]), max(perm[i], perm[j])) for i, j in ed)
+            mask = mask_of(n, e2)
+            for cls_name, bl, bts, forms in variants(n, mask, seed, ctx.thorough):
+                check_graph(ctx, agg, cls_name, n, bl, bts, ("atom",))
+                ctx.count(evaluations=1, traces=1)
+            ctx.count(states=1)
+            ctx.nontrivial(("deep", name, perm_kind))
 
 
 def run_graph_part(ctx, agg, part):
@@ -532,18 +575,22 @@ def _compare_match(ctx, viol, tgt, pat, api, opname, tn, tadj, tcols, pn, padj, 
     ctx.count(transitions=1, evaluations=1, traces=1)
     got = []
     try:
-        if api == "match":
-            for m in tgt.match(pat):
-                if not isinstance(m, dict) or len(m) != pn or any(not any(k is a for k in m) for a in patoms):
-                    got.append("malformed")
-                    continue
-                got.append(tuple(tpos.get(id(m[a]), -1) for a in patoms))
-        else:
-            for l in tgt.get_substr_indices(pat):
-                got.append(tuple(int(x) if isinstance(x, int) else -1 for x in l) if isinstance(l, (list, tuple)) else "malformed")
+        # the way callers use it (scripts/align.py): the generator is exhausted into a list FIRST, the items are looked at afterwards
+        items = list(tgt.match(pat)) if api == "match" else list(tgt.get_substr_indices(pat))
     except Exception as e:
         viol(f"raised-{type(e).__name__}", f"{opname} raised {type(e).__name__}: {e}")
         return
+    if len({id(x) for x in items}) != len(items):
+        viol("yielded-containers-are-one-object-reused", f"list({opname}(...)) holds {len(items)} items but only {len({id(x) for x in items})} distinct objects: {items[:3]!r}"[:400])
+        return
+    for m in items:
+        if api == "match":
+            if not isinstance(m, dict) or len(m) != pn or any(not any(k is a for k in m) for a in patoms):
+                got.append("malformed")
+                continue
+            got.append(tuple(tpos.get(id(m[a]), -1) for a in patoms))
+        else:
+            got.append(tuple(int(x) if isinstance(x, int) else -1 for x in m) if isinstance(m, (list, tuple)) else "malformed")
     gset = set(got)
     for f in sorted(gset - expected, key=repr):
         why = "malformed-mapping" if f == "malformed" else classify_invalid(f, tn, tadj, tcols, pn, padj, pcols)
@@ -925,6 +972,9 @@ def run(ctx):
         "each atom once; a distance label is accepted when it is either 1 + distance from the direction atom avoiding the start or the "
         "true distance in the whole graph; the order of directional traversal is not constrained",
         "non-directional traversal does not yield the start atom ('every other atom')",
+        "breadth-first order: non-decreasing true distance without a direction; with a direction non-decreasing distance under either reading (through the neighbour avoiding "
+        "the start, or true distance). The sequences of yield_bfs and yield_bfsd are not required to coincide (two breadth-first orders may differ)",
+        "generators are consumed with list(...) first and inspected afterwards; the dicts / lists yielded by match / get_substr_indices must be distinct objects",
         "bonded_valence is compared with the sum of Bond.order over the object's bond list (bond types Single/Double/Triple/Aromatic, exactly representable)",
         "embeddings are compared as sets: a repeated yield of the same embedding is not counted as a violation; automorphic images are distinct embeddings",
         "matching: Unknown appears only in patterns (the text does not say what an Unknown target atom matches); one bond type on all bonds of "
@@ -954,7 +1004,8 @@ def run(ctx):
         ctx.cap_hit(f"partial run requested by VERIF_C15_ONLY={only}")
     if only and not only.startswith("G"):
         parts = parts[:1]
-    run_forked(ctx, agg, [(f"graphs n={p['n']} [{p['lo']},{p['hi']})", run_graph_part, p) for p in parts], nproc, 800)
+    run_forked(ctx, agg, [(f"graphs n={p['n']} [{p['lo']},{p['hi']})", run_graph_part, p) for p in parts] + [("deep shapes", run_deep_part, {})], nproc, 800)
+    ctx.bound["G_deep_shapes"] = [f"{name} ({n} atoms)" for name, n, _ in deep_shapes()]
     ctx.bound["G_atoms_max"] = nmax
     ctx.bound["G_graphs"] = sum(1 << len(pairs(n)) for n in range(1, nmax + 1))
 
